@@ -98,6 +98,40 @@ CHILDREN = {
     "format number": ("- decl: void f()\n  format:\n    F_name_impl: 3\n", None),
     "attrs unknown arg": ("- decl: void f(int a)\n  attrs:\n    nosuch:\n      intent: in\n", None),
     "attrs value list": ("- decl: void f(int a)\n  attrs:\n    a:\n      intent: [in]\n", False),
+    "attrs deref list": ("- decl: void f(int **a +intent(out))\n  attrs:\n    a:\n      deref: [pointer]\n", None),
+    "attrs deref map": ("- decl: void f(int **a +intent(out))\n  attrs:\n    a:\n      deref: {kind: pointer}\n", None),
+    "attrs owner list": ("- decl: void f(int **a +intent(out))\n  attrs:\n    a:\n      owner: [pointer]\n", None),
+    "attrs owner map": ("- decl: void f(int **a +intent(out))\n  attrs:\n    a:\n      owner: {kind: pointer}\n", None),
+    "attrs intent list": ("- decl: void f(int *a)\n  attrs:\n    a:\n      intent: [pointer]\n", None),
+    "attrs intent map": ("- decl: void f(int *a)\n  attrs:\n    a:\n      intent: {kind: pointer}\n", None),
+    "attrs value list": ("- decl: void f(int a)\n  attrs:\n    a:\n      value: [pointer]\n", None),
+    "attrs value map": ("- decl: void f(int a)\n  attrs:\n    a:\n      value: {kind: pointer}\n", None),
+    "attrs rank list": ("- decl: void f(int *a)\n  attrs:\n    a:\n      rank: [pointer]\n", None),
+    "attrs rank map": ("- decl: void f(int *a)\n  attrs:\n    a:\n      rank: {kind: pointer}\n", None),
+    "attrs len list": ("- decl: void f(char *a)\n  attrs:\n    a:\n      len: [pointer]\n", None),
+    "attrs len map": ("- decl: void f(char *a)\n  attrs:\n    a:\n      len: {kind: pointer}\n", None),
+    "attrs dimension list": ("- decl: void f(int *a)\n  attrs:\n    a:\n      dimension: [pointer]\n", None),
+    "attrs dimension map": ("- decl: void f(int *a)\n  attrs:\n    a:\n      dimension: {kind: pointer}\n", None),
+    "attrs name list": ("- decl: void f(int a)\n  attrs:\n    a:\n      name: [pointer]\n", None),
+    "attrs name map": ("- decl: void f(int a)\n  attrs:\n    a:\n      name: {kind: pointer}\n", None),
+    "attrs free_pattern list": ("- decl: void f(int **a +intent(out))\n  attrs:\n    a:\n      free_pattern: [pointer]\n", None),
+    "attrs free_pattern map": ("- decl: void f(int **a +intent(out))\n  attrs:\n    a:\n      free_pattern: {kind: pointer}\n", None),
+    "attrs charlen list": ("- decl: void f(char *a +intent(out))\n  attrs:\n    a:\n      charlen: [pointer]\n", None),
+    "attrs charlen map": ("- decl: void f(char *a +intent(out))\n  attrs:\n    a:\n      charlen: {kind: pointer}\n", None),
+    "attrs assumedtype list": ("- decl: void f(void *a)\n  attrs:\n    a:\n      assumedtype: [pointer]\n", None),
+    "attrs assumedtype map": ("- decl: void f(void *a)\n  attrs:\n    a:\n      assumedtype: {kind: pointer}\n", None),
+    "attrs hidden list": ("- decl: void f(int *a +intent(out))\n  attrs:\n    a:\n      hidden: [pointer]\n", None),
+    "attrs hidden map": ("- decl: void f(int *a +intent(out))\n  attrs:\n    a:\n      hidden: {kind: pointer}\n", None),
+    "fattrs deref list": ("- decl: int *f()\n  fattrs:\n    deref: [pointer]\n", None),
+    "fattrs deref map": ("- decl: int *f()\n  fattrs:\n    deref: {kind: pointer}\n", None),
+    "fattrs owner list": ("- decl: int *f()\n  fattrs:\n    owner: [pointer]\n", None),
+    "fattrs owner map": ("- decl: int *f()\n  fattrs:\n    owner: {kind: pointer}\n", None),
+    "fattrs name list": ("- decl: int *f()\n  fattrs:\n    name: [pointer]\n", None),
+    "fattrs name map": ("- decl: int *f()\n  fattrs:\n    name: {kind: pointer}\n", None),
+    "fattrs free_pattern list": ("- decl: int *f()\n  fattrs:\n    free_pattern: [pointer]\n", None),
+    "fattrs free_pattern map": ("- decl: int *f()\n  fattrs:\n    free_pattern: {kind: pointer}\n", None),
+    "fattrs pure list": ("- decl: int *f()\n  fattrs:\n    pure: [pointer]\n", None),
+    "fattrs pure map": ("- decl: int *f()\n  fattrs:\n    pure: {kind: pointer}\n", None),
     "fattrs scalar": ("- decl: int f()\n  fattrs: 3\n", False),
 }
 
